@@ -1,4 +1,5 @@
 import CattrsModel.Sexp
 import CattrsModel.Conv.Driver
+import CattrsModel.Props.C01
 import CattrsModel.Props.C02
 import CattrsModel.Props.C04
